@@ -362,6 +362,14 @@ func (env *SpecEnv) binary(e *SExpr) specVal {
 	if b.typ == nil && a.typ != nil {
 		b = specVal{env.fx.e.zero(a.typ), a.typ}
 	}
+	// comparing an interface value with a pointer: the pointer is converted implicitly (as Go does)
+	if a.typ != nil && b.typ != nil && a.t.S != b.t.S {
+		if _, ok := b.typ.Underlying().(*types.Pointer); ok && a.t.S == SIfc {
+			b = specVal{Ite(Eq(b.t, IntLit(0)), MkIfc(IntLit(int64(env.fx.e.typeTag(b.typ))), IntLit(0)), env.fx.makeIface(b.t, b.typ)), a.typ}
+		} else if _, ok := a.typ.Underlying().(*types.Pointer); ok && b.t.S == SIfc {
+			a = specVal{Ite(Eq(a.t, IntLit(0)), MkIfc(IntLit(int64(env.fx.e.typeTag(a.typ))), IntLit(0)), env.fx.makeIface(a.t, a.typ)), b.typ}
+		}
+	}
 	switch op {
 	case "==", "!=":
 		var r *Term
